@@ -880,8 +880,14 @@ fn codegen_impl_qty_sqared(
                     Some(unit) =>
                         Self::Output::new(self.amount() * rhs.amount(), unit),
                     None =>
+                        // Multiply the reference-unit magnitudes of the
+                        // operands: every intermediate value is then a
+                        // magnitude of one of the operands or of the result
+                        // (`self.amount() * rhs.amount()` is not and may
+                        // exceed the range of the amount type).
                         <Self::Output as HasRefUnit>::_fit(
-                            self.amount() * rhs.amount() * scale
+                            (self.amount() * self.unit().scale())
+                                * (rhs.amount() * rhs.unit().scale())
                         )
                 }
             }
@@ -938,8 +944,14 @@ fn codegen_impl_qty_mul_qty(
                     Some(unit) =>
                         Self::Output::new(self.amount() * rhs.amount(), unit),
                     None =>
+                        // Multiply the reference-unit magnitudes of the
+                        // operands: every intermediate value is then a
+                        // magnitude of one of the operands or of the result
+                        // (`self.amount() * rhs.amount()` is not and may
+                        // exceed the range of the amount type).
                         <Self::Output as HasRefUnit>::_fit(
-                            self.amount() * rhs.amount() * scale
+                            (self.amount() * self.unit().scale())
+                                * (rhs.amount() * rhs.unit().scale())
                         )
                 }
             }
@@ -1024,8 +1036,14 @@ fn codegen_impl_div_qties(
                     Some(unit) =>
                         Self::Output::new(self.amount() / rhs.amount(), unit),
                     None =>
+                        // Divide the reference-unit magnitudes of the
+                        // operands: every intermediate value is then a
+                        // magnitude of one of the operands or of the result
+                        // (`self.amount() / rhs.amount()` is not and may
+                        // exceed the range of the amount type).
                         <Self::Output as HasRefUnit>::_fit(
-                            (self.amount() / rhs.amount()) * scale
+                            (self.amount() * self.unit().scale())
+                                / (rhs.amount() * rhs.unit().scale())
                         )
                 }
             }
